@@ -1553,22 +1553,22 @@ zshPrefixLoop:
 		// Note that in Zsh, the short form like $#name is allowed too.
 		switch p.r {
 		case '#':
-			if p.paramNameStart() {
+			if p.paramNameStart(pe.Short) {
 				pe.Length = true
 			}
 		case '%':
-			if p.paramNameStart() {
+			if p.paramNameStart(pe.Short) {
 				p.checkLang(pe.Pos(), LangMirBSDKorn, "`${%%foo}`")
 				pe.Width = true
 			}
 		case '!':
 			// Unlike the others, zsh has no $!foo prefix.
-			if !pe.Short && p.paramNameStart() {
+			if !pe.Short && p.paramNameStart(pe.Short) {
 				p.checkLang(pe.Pos(), langBashLike|LangMirBSDKorn, "`${!foo}`")
 				pe.Excl = true
 			}
 		case '+':
-			if p.paramNameStart() {
+			if p.paramNameStart(pe.Short) {
 				p.checkLang(pe.Pos(), LangZsh, "`${+foo}`")
 				pe.IsSet = true
 			}
@@ -1710,9 +1710,11 @@ zshPrefixLoop:
 	return pe
 }
 
-func (p *Parser) paramNameStart() bool {
+func (p *Parser) paramNameStart(short bool) bool {
 	r := p.peek()
-	if r == utf8.RuneSelf || singleRuneParam(r) || paramNameRune(r) || r == '"' {
+	// At the end of the input, "${#" is an unfinished expansion either way,
+	// but the short forms "$#", "$%" and "$+" are complete as they are.
+	if (r == utf8.RuneSelf && !short) || singleRuneParam(r) || paramNameRune(r) || r == '"' {
 		p.rune()
 		return true
 	}
